@@ -5,6 +5,7 @@ theorem), EchoCases.tla (scenario space), Gen_Echo.tla (generator), Trace_Echo.t
 import json
 import os
 import random
+import shutil
 import vf
 
 PKG = "internal/app/connectconformance"
@@ -63,22 +64,57 @@ def pick_e2e(ctx, wf, n):
     return chosen
 
 
-def run_e2e(ctx, binp, scns, tag, cfgn, timeout):
-    scnp = os.path.join(ctx.build, "c02.e2e.%s.scn" % tag)
-    outp = os.path.join(ctx.build, "c02.e2e.%s.out" % tag)
-    wd = os.path.join(ctx.build, "e2e-" + tag)
-    os.makedirs(wd, exist_ok=True)
-    vf.write_ndjson(scnp, scns)
-    ctx.run_harness(binp, "TestVerifC02E2E", env=dict(VERIF_SCN=scnp, VERIF_OUT=outp, VERIF_DIR=wd, VERIF_CFGN=cfgn,
-                    VERIF_MAXSERVERS=ctx.pick(6, 12), VERIF_WATCHDOG_S=timeout - 120), timeout=timeout)
-    recs = vf.read_ndjson(outp)
-    for r in recs:
-        if r.get("harness_error"):
-            raise vf.Machinery("e2e harness: " + r["harness_error"])
-    summ = [r for r in recs if r.get("summary")]
-    if not summ:
-        raise vf.Machinery("e2e harness wrote no summary")
-    return [r for r in recs if not r.get("summary")], summ[0]
+STNUM = {"unary": 1, "client": 2, "server": 3, "half": 4, "full": 5}
+
+
+def cfg_key(r):
+    c = r["cfg"]
+    return "%d/%d/%d/%d/%d/%s" % (STNUM[r["st"]], c["protocol"], c["version"], c["codec"], c["compression"], "true" if c["tls"] else "false")
+
+
+def run_e2e(ctx, binp, scns, tag, cfgn, timeout, cfgkeys=None, chunk=40):
+    """runs the cases in chunks (one harness process each: the reference client keeps a connection per
+    RPC open until it exits, and a process has 20000 descriptors); returns records and a merged summary"""
+    allrecs, total = [], None
+    for ci in range(0, len(scns), chunk):
+        part = scns[ci:ci + chunk]
+        t = "%s.%d" % (tag, ci // chunk)
+        scnp = os.path.join(ctx.build, "c02.e2e.%s.scn" % t)
+        outp = os.path.join(ctx.build, "c02.e2e.%s.out" % t)
+        wd = os.path.join(ctx.build, "e2e-" + t)
+        os.makedirs(wd, exist_ok=True)
+        vf.write_ndjson(scnp, part)
+        env = dict(VERIF_SCN=scnp, VERIF_OUT=outp, VERIF_DIR=wd, VERIF_CFGN=cfgn,
+                   VERIF_MAXSERVERS=ctx.pick(6, 10), VERIF_WATCHDOG_S=timeout - 120)
+        if cfgkeys is not None:
+            kp = os.path.join(ctx.build, "c02.e2e.%s.keys" % t)
+            with open(kp, "w") as fh:
+                json.dump(sorted(cfgkeys), fh)
+            env["VERIF_CFGKEYS"] = kp
+        ctx.run_harness(binp, "TestVerifC02E2E", env=env, timeout=timeout)
+        recs = vf.read_ndjson(outp)
+        for r in recs:
+            if r.get("harness_error"):
+                raise vf.Machinery("e2e harness: " + r["harness_error"])
+        summ = [r for r in recs if r.get("summary")]
+        if not summ:
+            raise vf.Machinery("e2e harness wrote no summary")
+        summ = summ[0]
+        recs = [r for r in recs if not r.get("summary")]
+        for r in recs:
+            txt = r["m1"] + r["m2"] + r["cerr"]
+            if "too many open files" in txt or "cannot assign requested address" in txt:
+                raise vf.Machinery("e2e harness ran out of OS resources: " + txt[:300])
+        shutil.rmtree(wd, ignore_errors=True)
+        allrecs += recs
+        if total is None:
+            total = dict(summ)
+        else:
+            for k in ("cases", "permutations", "observed", "run_s", "capture_s", "unexpected_names"):
+                total[k] += summ[k]
+            total["run_ok"] = total["run_ok"] and summ["run_ok"]
+            total["config_cases"] = max(total["config_cases"], summ["config_cases"])
+    return allrecs, total
 
 
 def accept(ctx, recs, byid, tag):
@@ -193,7 +229,8 @@ def run(ctx):
             if not open_names:
                 break
             again = [byid[i] for i in sorted({first[n]["id"] for n in open_names})]
-            recs2, _ = run_e2e(ctx, binp, again, "rep%d" % reruns, cfgn, ctx.pick(1500, 6000))
+            recs2, _ = run_e2e(ctx, binp, again, "rep%d" % reruns, cfgn, ctx.pick(1500, 6000),
+                               cfgkeys={cfg_key(first[n]) for n in open_names}, chunk=200)
             rej2 = {recs2[i]["name"] for i in accept(ctx, recs2, byid, "rep%d" % reruns)}
             have2 = {r["name"] for r in recs2}
             for n in open_names:
